@@ -55,7 +55,7 @@ func collaboratorCells(p *Prog) []nilCell {
 					}
 					if !okUsed {
 						seen[w.Field] = true
-						out = append(out, nilCell{w.Field, w.Field.Name()})
+						out = append(out, nilCell{w.Field, N(w.Field)})
 					}
 				}
 			}
@@ -84,18 +84,18 @@ func (a *nilAnalysis) safeAt(fn *ssa.Function, at ssa.Instruction, cell nilCell,
 		// correlated boolean flag
 		if f.Truth {
 			if fl := LoadedField(f.Cond); fl != nil && a.flagCorrelated(fl, cell, depth+1) {
-				return true, "dominating flag " + fl.Name() + " (all enabling stores justified)"
+				return true, "dominating flag " + N(fl) + " (all enabling stores justified)"
 			}
 			// struct flag: X.trailer where X field's stores are results of invokes on the cell
 			if fv, ok := f.Cond.(*ssa.Field); ok {
 				if outer := LoadedField(fv.X); outer != nil && a.structFromCell(outer, cell) {
-					return true, "dominating flag inside " + outer.Name() + " (only ever produced by the collaborator itself)"
+					return true, "dominating flag inside " + N(outer) + " (only ever produced by the collaborator itself)"
 				}
 			}
 			if u, ok := f.Cond.(*ssa.UnOp); ok && u.Op == token.MUL {
 				if inner, ok := u.X.(*ssa.FieldAddr); ok {
 					if outerFA, ok := inner.X.(*ssa.FieldAddr); ok && a.structFromCell(FieldOfAddr(outerFA), cell) {
-						return true, "dominating flag inside " + FieldOfAddr(outerFA).Name() + " (only ever produced by the collaborator itself)"
+						return true, "dominating flag inside " + N(FieldOfAddr(outerFA)) + " (only ever produced by the collaborator itself)"
 					}
 				}
 			}
@@ -104,7 +104,7 @@ func (a *nilAnalysis) safeAt(fn *ssa.Function, at ssa.Instruction, cell nilCell,
 		if cmp, ok := f.AsCmp(); ok && cmp.Op == token.NEQ {
 			if k, isK := ConstInt(cmp.Y); isK && k == -1 {
 				if fl := LoadedField(cmp.X); fl != nil && a.sentinelCorrelated(fl, cell, depth+1) {
-					return true, "dominating sentinel test " + fl.Name() + " != -1 (all other stores justified)"
+					return true, "dominating sentinel test " + N(fl) + " != -1 (all other stores justified)"
 				}
 			}
 		}
@@ -131,7 +131,7 @@ func (a *nilAnalysis) flagCorrelated(fl *types.Var, cell nilCell, depth int) boo
 	if !ok || b.Info()&types.IsBoolean == 0 {
 		return false
 	}
-	key := fl.Name() + "@" + fieldOwner(fl, a.p) + "|" + cell.name
+	key := N(fl) + "@" + fieldOwner(fl, a.p) + "|" + cell.name
 	switch a.flagOK[key] {
 	case 1:
 		return true
@@ -179,7 +179,7 @@ func (a *nilAnalysis) sentinelCorrelated(fl *types.Var, cell nilCell, depth int)
 	if !isIntegerLike(fl.Type()) {
 		return false
 	}
-	key := "s:" + fl.Name() + "@" + fieldOwner(fl, a.p) + "|" + cell.name
+	key := "s:" + N(fl) + "@" + fieldOwner(fl, a.p) + "|" + cell.name
 	switch a.flagOK[key] {
 	case 1:
 		return true
@@ -192,7 +192,7 @@ func (a *nilAnalysis) sentinelCorrelated(fl *types.Var, cell nilCell, depth int)
 	a.flagOK[key] = 3
 	all, n := true, 0
 	for _, fn := range a.p.Funcs {
-		if fn.Name() == "Close" {
+		if N(fn) == "Close" {
 			continue
 		}
 		for _, st := range StoresToField(fn, fl) {
@@ -320,7 +320,7 @@ func runC11(c *Ctx) {
 					return
 				}
 				c.CountSite()
-				method := in.(ssa.CallInstruction).Common().Method.Name()
+				method := N(in.(ssa.CallInstruction).Common().Method)
 				ok, how := a.safeAt(fn, in, cl, 0)
 				if !ok && fn == ewClose && cl.name == "clientEnveloper" {
 					// reasoned exception (d): the state remainingBytes == -1 && mustReleaseCurrent is created only by
@@ -409,7 +409,7 @@ func runC11(c *Ctx) {
 						guard = true
 					}
 				}
-				c.Check(guard, "C11.2", FuncName(fn), "w."+ci.Common().Method.Name(), in.Pos(),
+				c.Check(guard, "C11.2", FuncName(fn), "w."+N(ci.Common().Method), in.Pos(),
 					"the body adapter is used under a non-nil test", "the response writer's body adapter is used without a non-nil test")
 			})
 		}
@@ -583,8 +583,8 @@ func runC11(c *Ctx) {
 	}
 	ems := p.SSA.MethodSets.MethodSet(ewPT)
 	for i := 0; i < ems.Len(); i++ {
-		m := p.MethodOf(ewPT, ems.At(i).Obj().Name())
-		if m == nil || m.Blocks == nil || m.Name() == "Close" {
+		m := p.MethodOf(ewPT, N(ems.At(i).Obj()))
+		if m == nil || m.Blocks == nil || N(m) == "Close" {
 			continue
 		}
 		ForEachInstr(m, func(in ssa.Instruction) {
@@ -611,7 +611,7 @@ func runC11(c *Ctx) {
 			}
 			c.CountSite()
 			okRec, path := MustPassToExit(m, st, recovers, IsReturn, nil)
-			c.Check(okRec, "C11.8", FuncName(m), "sink-restored-or-closed:"+f.Name(), st.Pos(),
+			c.Check(okRec, "C11.8", FuncName(m), "sink-restored-or-closed:"+N(f), st.Pos(),
 				"after this store every path to the exit installs a sink, returns to envelope mode, or sets the error cell (so Write refuses further data)",
 				"the writer "+danger+" and a path returns without installing a sink or closing the writer ("+witnessString(p, path)+"): the finalising Write(nil) of responseWriter.close dereferences a nil sink")
 		})
@@ -776,7 +776,7 @@ func runC11(c *Ctx) {
 			case *ssa.TypeAssert:
 				if !x.CommaOk {
 					nAssert++
-					c.Bad("C11.3", FuncName(fn), "single-value-assert:"+types.TypeString(x.AssertedType, shortQual), x.Pos(), "single-value type assertion in request-time code panics when the dynamic type differs")
+					c.Bad("C11.3", FuncName(fn), "single-value-assert:"+aliasTypeString(types.TypeString(x.AssertedType, shortQual)), x.Pos(), "single-value type assertion in request-time code panics when the dynamic type differs")
 				}
 			case *ssa.Go:
 				nGo++
@@ -919,7 +919,7 @@ func runC11(c *Ctx) {
 	for _, fn := range p.Funcs {
 		for _, call := range Calls(fn) {
 			cc := call.Common()
-			if cc.IsInvoke() && cc.Method.Name() == "WriteHeader" && isNamed(cc.Value.Type(), "net/http", "ResponseWriter") {
+			if cc.IsInvoke() && N(cc.Method) == "WriteHeader" && isNamed(cc.Value.Type(), "net/http", "ResponseWriter") {
 				c.Check(allowedWH[FuncName(fn)], "C11.5", FuncName(fn), "who-calls:WriteHeader", call.Pos(),
 					"designated call site of the underlying WriteHeader", "the underlying ResponseWriter.WriteHeader is called outside the designated sites: a second response head can be emitted")
 				if fn == flushHeaders {
